@@ -540,3 +540,34 @@ def de_settings_reach_the_strategies_unchanged(ctx):
             ctx.check(bad is None, '%s._process_inputs#%s' % (cls, attr), 'self.%s = kwds[%r] exactly when the key is present, else unchanged' % (attr, key),
                       '%s._process_inputs stores self.%s = %s under %s: the value the caller gave for %s does not reach the strategies unchanged (a legal 0 is dropped)'
                       % (cls, attr, T.show(bad[0])[:60] if bad else '', [(T.show(c)[:40], tr) for c, tr in bad[1]][:3] if bad else '', key), f, bad[2] if bad else f.node)
+
+
+@rule('C08.h', min_instances=3)
+def every_line_search_gets_the_same_settings(ctx):
+    """Powell's three line searches (generation 1 loop, later loop, the search along the extrapolated direction) are the same Brent search: each _linesearch_powell call in _Step passes tol = 100 * the xtol setting and maxiter = the imax setting, both read from the step's settings (the reference has one tolerance and one iteration cap for all of them)"""
+    f = ctx.func(SO + ':PowellDirectionalSolver._Step')
+    sn = selfname_of(f)
+    b = T.Builder()
+    for st in f.node.body:
+        if isinstance(st, ast.Assign) and len(st.targets) == 1 and isinstance(st.targets[0], ast.Name):
+            b.exec_stmt(st)
+    S = ('name', sn)
+
+    def setting(key):
+        settings = [k for k, v in b.env.items() if isinstance(v, tuple) and v and v[0] == 'call' and T.show(v[1]).endswith('_process_inputs')]
+        ctx.need(settings, 'Powell _Step: no local holds the processed settings')
+        sv = b.env[settings[0]]
+        return ('ifexp', ('cmp', 'in', ('const', key), sv), ('sub', sv, ('const', key)), ('attr', S, key))
+    calls = calls_where(f.node, lambda c: callee_text(c) == '_linesearch_powell', include_lambda=False)
+    ctx.need(len(calls) >= 3, 'expected 3 line searches in Powell _Step, found %d' % len(calls))
+    want_tol = T.simp(T.pmul(setting('xtol'), T.num(100)))
+    want_max = setting('imax')
+    for c in calls:
+        tol = kwarg(c, 'tol', 3)
+        mx = kwarg(c, 'maxiter', 4)
+        gt = T.simp(b.t(tol)) if tol is not None else None
+        gm = T.simp(b.t(mx)) if mx is not None else None
+        ctx.stats['terms_compared'] += 2
+        ctx.check(gt == want_tol and gm == want_max, 'PowellDirectionalSolver._Step#linesearch[%d]' % calls.index(c), 'tol = xtol*100, maxiter = imax (from the settings)',
+                  'the line search at line %d runs with tol=%s, maxiter=%s instead of the step\'s (xtol*100, imax): the three searches of one sweep are no longer the same Brent search'
+                  % (c.lineno, T.show(gt)[:60] if gt else 'default', T.show(gm)[:60] if gm else 'default (500)'), f, enclosing_stmt(c))
